@@ -202,3 +202,29 @@ def rel_apply(base_tokens, steps, offset, suffix):
             raise RelFail("# at the root")
         return toks, True
     return toks + list(suffix), False
+
+
+# ------------------------------------------------------------------ decoding options
+
+import re as _re
+from urllib.parse import unquote as _unquote
+
+_U = _re.compile(r"\\u([0-9a-fA-F]{4})")
+
+
+def decode_options(text, unicode_escape=True, uri_decode=False):
+    """What a pointer text means under the library's two documented decoding options, for the
+    subset the generators use: %XX sequences (urllib's unquote is the definition of uri_decode)
+    and \\uXXXX / \\/ escapes (UTF-16 pairs combined).  Returns the list of reference tokens."""
+    s = text
+    if uri_decode:
+        s = _unquote(s)
+    if unicode_escape and "\\" in s:
+        s = s.replace("\\/", "/")
+        s = _U.sub(lambda m: chr(int(m.group(1), 16)), s)
+        s = s.encode("utf-16", "surrogatepass").decode("utf-16")
+    return decode(s)
+
+
+FLAG_TEXTS = ["/a%20b", "/a%2Fb/c", "/%25", "/caf%C3%A9", "/a b", "/\\u0041", "/x\\u002fy", "/\\u00e9/%41", "/%5Cu0041", "/a%2520b", "/plain", "/100%25/\\u0031", "/\\ud83d\\ude00"]
+FLAG_SETTINGS = [(True, False), (True, True), (False, False), (False, True)]
